@@ -10,6 +10,7 @@
 -/
 import SoundeventModel.Detection
 import Proofs.Lemmas.Detection
+import Proofs.Lemmas.DetectionGeo
 import Proofs.C07
 namespace SE.Proofs.C08
 open SE SE.Metrics SE.Detection
@@ -491,5 +492,296 @@ example :
 example : evalClip 2 [⟨0, false, []⟩] [] [⟨some 0, none, 0⟩] = none := by decide +kernel
 example : Detection.pairClips [(3, "p3"), (1, "p1"), (7, "p7")] [(1, "a1"), (3, "a3"), (5, "a5")]
     = [(3, "a3", "p3"), (1, "a1", "p1")] := by decide
+
+section Geo
+open SE.Affinity
+
+/-! ### the geometry layer: the matcher inside the model, overlap decided by end-point comparisons -/
+
+/-- **Overlap is what a positive affinity means.**  For valid geometries of the closed-form types
+    and non-negative buffers, `compute_affinity` (model of C06 on exact rectangles) returns a
+    value, and that value is positive exactly when the geometries overlap in the sense of
+    `overlapCF` (time extents share more than a point and, for two boxes, so do the frequency
+    extents) — a statement that involves no area arithmetic on its right-hand side -/
+theorem C08_overlap_iff_affinity_pos (tb fb : Rat) (htb : 0 ≤ tb) (hfb : 0 ≤ fb) (g1 g2 : Geom)
+    (w1 : WF g1) (w2 : WF g2) (b : Bool) (h : overlapCF tb g1 g2 = some b) :
+    ∃ v, affinityCF tb fb g1 g2 = .ok v ∧ (0 < v ↔ b = true) :=
+  overlap_iff_affinity_pos tb fb htb hfb g1 g2 w1 w2 b h
+
+/-- overlap is symmetric, and is decided exactly for the closed-form types -/
+theorem C08_overlap_symm_total (tb : Rat) (g1 g2 : Geom) :
+    overlapCF tb g1 g2 = overlapCF tb g2 g1 ∧
+    ((∃ b, overlapCF tb g1 g2 = some b) ↔ (closed g1 = true ∧ closed g2 = true)) :=
+  ⟨overlapCF_symm tb g1 g2,
+   ⟨fun ⟨b, h⟩ => closed_of_overlapCF tb g1 g2 b h, fun ⟨c1, c2⟩ => overlapCF_closed tb g1 g2 c1 c2⟩⟩
+
+/-- what the solver-independent part of `match_geometries` needs: valid geometries, measured
+    affinities (non-closed types) in [0, 1], non-negative buffers -/
+structure GeoInputs (X : Matching.Mat) (tb fb : Rat) (preds : List GPred) (anns : List GAnn) : Prop where
+  tb_nonneg : 0 ≤ tb
+  fb_nonneg : 0 ≤ fb
+  measured : ∀ i j, 0 ≤ X i j ∧ X i j ≤ 1
+  wf_preds : ∀ g ∈ geomsOf preds, WF g
+  wf_anns : ∀ g ∈ geomsOf anns, WF g
+
+/-- **The matcher's contract is a theorem.**  With the matcher inside the model the cover
+    contract of the first layer (`MatcherCover`) needs no hypothesis about `match_geometries`
+    any more: it follows from the models of `compute_affinity` (C06) and `_select_matches` (C07)
+    for every answer of the assignment solver that is a partial injection -/
+theorem C08_geo_matcher_contract (X : Matching.Mat) (tb fb : Rat) (preds : List GPred) (anns : List GAnn)
+    (pairs : List (Nat × Nat)) (hin : GeoInputs X tb fb preds anns)
+    (hv : SE.Proofs.C07.ValidAssignment (geomsOf preds).length (geomsOf anns).length pairs) :
+    ∃ out, Matching.selectMatches (geomsOf preds).length (geomsOf anns).length
+        (affEntry X tb fb (geomsOf preds) (geomsOf anns)) pairs = .ok out ∧
+      matchGeo X tb fb (geomsOf preds) (geomsOf anns) pairs = .ok (out.map ofMatching) ∧
+      MatcherCover ((evPreds preds).filter (·.hasGeom)).length ((evAnns anns).filter (·.hasGeom)).length
+        (out.map ofMatching) := by
+  have hout := SE.Proofs.C07.C07_total _ _ (affEntry X tb fb (geomsOf preds) (geomsOf anns)) pairs hv
+  refine ⟨_, hout, ?_, ?_⟩
+  · unfold matchGeo; rw [hout]
+  · rw [evPreds_filter_length, evAnns_filter_length]
+    exact C08_contract_from_C07 _ _ _ pairs _ hv hout
+      (fun i j _ _ => affEntry_range X tb fb _ _ hin.measured hin.wf_preds hin.wf_anns i j)
+
+/-- **Only overlaps are credited, every sound event is accounted for** — with the matcher
+    inside the model.  For every answer of the assignment solver that is a partial injection,
+    `evaluate_clip` does not fail; every predicted and annotated sound event occurs in exactly
+    one match; a paired match names two sound events that both have a geometry, reports a
+    positive affinity and the probability of the annotation's class; when both geometries are
+    of a closed-form type they *overlap* (`overlapCF = some true`) and the reported affinity is
+    their closed-form intersection over union; unpaired matches report affinity 0 and score 0 -/
+theorem C08_geo_pairs_overlap (C : Nat) (X : Matching.Mat) (tb fb : Rat) (preds : List GPred) (anns : List GAnn)
+    (pairs : List (Nat × Nat)) (hin : GeoInputs X tb fb preds anns)
+    (hv : SE.Proofs.C07.ValidAssignment (geomsOf preds).length (geomsOf anns).length pairs) :
+    ∃ es, evalClipGeo C X tb fb preds anns pairs = some es ∧
+      (es.filterMap (·.src)).Perm (List.range preds.length) ∧
+      (es.filterMap (·.tgt)).Perm (List.range anns.length) ∧
+      (∀ e ∈ es, e.paired = true → ∃ i j p a g1 g2,
+        e.src = some i ∧ e.tgt = some j ∧ preds[i]? = some p ∧ anns[j]? = some a ∧
+        p.2 = some g1 ∧ a.2 = some g2 ∧ 0 < e.aff ∧ e.aff ≤ 1 ∧
+        e.score = tcp ⟨classEnc a.1.tags, predEnc C p.1.tags⟩ ∧
+        (closed g1 = true → closed g2 = true →
+          overlapCF tb g1 g2 = some true ∧ affinityCF tb fb g1 g2 = .ok e.aff)) ∧
+      (∀ e ∈ es, e.paired = false → e.aff = 0 ∧ e.score = 0) := by
+  obtain ⟨out, hsel, hmg, hc⟩ := C08_geo_matcher_contract X tb fb preds anns pairs hin hv
+  obtain ⟨es, hes, hsrc, htgt, _⟩ := C08_cover C (evPreds preds) (evAnns anns) (out.map ofMatching) hc
+  refine ⟨es, ?_, ?_, ?_, ?_, ?_⟩
+  · unfold evalClipGeo; rw [hmg]; exact hes
+  · simpa [evPreds] using hsrc
+  · simpa [evAnns] using htgt
+  · intro e he hp
+    obtain ⟨m, hm, k, l, i, j, hms, hmt, hi, hj, hsrc', htgt', haff, hpos, hscore, _⟩ :=
+      C08_pairs_overlap_report_affinity_score C (evPreds preds) (evAnns anns) (out.map ofMatching) es hc hes e he hp
+    rw [evPreds_hasGeom] at hi
+    rw [evAnns_hasGeom] at hj
+    obtain ⟨p, g1, hp1, hp2, hp3⟩ := geomIdx_geomsOf preds k i hi
+    obtain ⟨a, g2, ha1, ha2, ha3⟩ := geomIdx_geomsOf anns l j hj
+    obtain ⟨m', hm', rfl⟩ := List.mem_map.mp hm
+    have hrep := SE.Proofs.C07.C07_reported_affinity _ _ _ pairs out hv hsel m' hm' k l hms hmt
+    have hrange := affEntry_range X tb fb _ _ hin.measured hin.wf_preds hin.wf_anns k l
+    have hea : e.aff = affEntry X tb fb (geomsOf preds) (geomsOf anns) k l := by rw [haff]; exact hrep
+    have hpi : (evPreds preds).getD i default = { p.1 with hasGeom := p.2.isSome } := by
+      simp [evPreds, List.getD_eq_getElem?_getD, hp1]
+    have haj : (evAnns anns).getD j default = { a.1 with hasGeom := a.2.isSome } := by
+      simp [evAnns, List.getD_eq_getElem?_getD, ha1]
+    refine ⟨i, j, p, a, g1, g2, hsrc', htgt', hp1, ha1, hp2, ha2, hpos, ?_, ?_, ?_⟩
+    · rw [hea]; exact hrange.2
+    · rw [hscore, hpi, haj]
+    · intro c1 c2
+      obtain ⟨h1, h2⟩ := affEntry_closed X tb fb hin.tb_nonneg hin.fb_nonneg _ _ k l g1 g2 hp3 ha3
+        (hin.wf_preds g1 (List.mem_of_getElem? hp3)) (hin.wf_anns g2 (List.mem_of_getElem? ha3)) c1 c2
+      rw [hea]
+      exact ⟨h2.mp (by rw [← hea]; exact hpos), h1⟩
+  · intro e he hp
+    exact C08_unpaired_zero C (evPreds preds) (evAnns anns) (out.map ofMatching) es hc hes e he hp
+
+/-- **What the judge means.**  `judgePairs`, which the check evaluates in Lean on the matches
+    `sound_event_detection` really returned together with the geometries of the input, holds
+    exactly when every two-sided match is between two sound events that have a geometry and
+    whose geometries are not disjoint by the end-point comparison (for types without closed
+    form, `overlapCF = none`, the monitored contract decides) -/
+theorem C08_judge_sound (tb : Rat) (pg ag : List (Option Geom)) (ms : List (Option Nat × Option Nat)) :
+    judgePairs tb pg ag ms = true ↔
+      ∀ m ∈ ms, ∀ i j, m.1 = some i → m.2 = some j →
+        ∃ g1 g2, pg[i]? = some (some g1) ∧ ag[j]? = some (some g2) ∧ overlapCF tb g1 g2 ≠ some false := by
+  unfold judgePairs
+  rw [List.all_eq_true]
+  constructor
+  · intro h m hm i j hi hj
+    have := h m hm
+    simp only [hi, hj, Bool.or_eq_true, beq_iff_eq] at this
+    unfold judgePair at this
+    cases h1 : pg[i]? with
+    | none => simp [h1] at this
+    | some o1 =>
+      cases o1 with
+      | none => simp [h1] at this
+      | some g1 =>
+        cases h2 : ag[j]? with
+        | none => simp [h1, h2] at this
+        | some o2 =>
+          cases o2 with
+          | none => simp [h1, h2] at this
+          | some g2 =>
+            refine ⟨g1, g2, rfl, rfl, ?_⟩
+            intro hf
+            simp [h1, h2, hf] at this
+  · intro h m hm
+    cases hi : m.1 with
+    | none => simp
+    | some i =>
+      cases hj : m.2 with
+      | none => simp
+      | some j =>
+        obtain ⟨g1, g2, h1, h2, hne⟩ := h m hm i j hi hj
+        simp only [Bool.or_eq_true, beq_iff_eq]
+        unfold judgePair
+        simp only [h1, h2, Option.join_some]
+        cases ho : overlapCF tb g1 g2 with
+        | none => simp
+        | some b =>
+          cases b with
+          | true => simp
+          | false => exact absurd ho hne
+
+/-- … and the model passes it for every valid answer of the assignment solver -/
+theorem C08_judge_model (C : Nat) (X : Matching.Mat) (tb fb : Rat) (preds : List GPred) (anns : List GAnn)
+    (pairs : List (Nat × Nat)) (hin : GeoInputs X tb fb preds anns)
+    (hv : SE.Proofs.C07.ValidAssignment (geomsOf preds).length (geomsOf anns).length pairs) :
+    ∃ es, evalClipGeo C X tb fb preds anns pairs = some es ∧
+      judgePairs tb (preds.map (·.2)) (anns.map (·.2)) (es.map (fun e => (e.src, e.tgt))) = true := by
+  obtain ⟨es, hes, _, _, hpair, _⟩ := C08_geo_pairs_overlap C X tb fb preds anns pairs hin hv
+  refine ⟨es, hes, ?_⟩
+  rw [C08_judge_sound]
+  intro m hm i j hi hj
+  obtain ⟨e, he, rfl⟩ := List.mem_map.mp hm
+  simp only at hi hj
+  have hp : e.paired = true := by simp [Entry.paired, hi, hj]
+  obtain ⟨i', j', p, a, g1, g2, hs, ht, hp1, ha1, hp2, ha2, _, _, _, hcl⟩ := hpair e he hp
+  rw [hi] at hs; rw [hj] at ht
+  cases hs; cases ht
+  refine ⟨g1, g2, by simp [hp1, hp2], by simp [ha1, ha2], ?_⟩
+  intro hf
+  obtain ⟨c1, c2⟩ := closed_of_overlapCF tb g1 g2 false hf
+  rw [(hcl c1 c2).1] at hf
+  cases hf
+
+/-! ### `sound_event_detection` with the matcher inside -/
+
+/-- the matcher's answer for one predicted clip in closed form (C07's `closedForm`) -/
+def geoMatcher (tb fb : Rat) (anns : List (Nat × List GAnn)) (p : Nat × GeoClip) : List MEntry :=
+  match lookupLast p.1 anns with
+  | none => []
+  | some as =>
+    (Matching.closedForm (geomsOf p.2.events).length (geomsOf as).length
+      (affEntry (Matching.matOfRows p.2.measured) tb fb (geomsOf p.2.events) (geomsOf as)) p.2.pairs).map ofMatching
+
+def geoPredClip (tb fb : Rat) (anns : List (Nat × List GAnn)) (p : Nat × GeoClip) : Nat × PredClip :=
+  (p.1, { events := evPreds p.2.events, matcher := geoMatcher tb fb anns p })
+
+/-- the monitored contracts on every evaluated clip: valid geometries, measured affinities in
+    [0, 1], and an answer of the assignment solver that is a partial injection -/
+def GeoClipsOk (tb fb : Rat) (preds : List (Nat × GeoClip)) (anns : List (Nat × List GAnn)) : Prop :=
+  ∀ p ∈ preds, ∀ as, lookupLast p.1 anns = some as →
+    GeoInputs (Matching.matOfRows p.2.measured) tb fb p.2.events as ∧
+    SE.Proofs.C07.ValidAssignment (geomsOf p.2.events).length (geomsOf as).length p.2.pairs
+
+/-- **End to end.**  `sound_event_detection` with the matcher inside is the first layer's
+    `soundEventDetection` run on matcher answers that *provably* satisfy the cover contract on
+    every evaluated clip: `C08_means`, `C08_cover`, … apply without any hypothesis about
+    `match_geometries` -/
+theorem C08_geo_detection (C : Nat) (tb fb : Rat) (preds : List (Nat × GeoClip)) (anns : List (Nat × List GAnn))
+    (hok : GeoClipsOk tb fb preds anns) :
+    soundEventDetectionGeo C tb fb preds anns =
+      soundEventDetection C (preds.map (geoPredClip tb fb anns)) (anns.map (fun a => (a.1, evAnns a.2))) ∧
+    ∀ x ∈ Detection.pairClips (preds.map (geoPredClip tb fb anns)) (anns.map (fun a => (a.1, evAnns a.2))),
+      clipCovered x := by
+  have hwm : ∀ p ∈ preds, withMatcher tb fb anns p = .ok (geoPredClip tb fb anns p) := by
+    intro p hp
+    unfold withMatcher geoPredClip geoMatcher
+    cases hl : lookupLast p.1 anns with
+    | none => rfl
+    | some as =>
+      obtain ⟨hin, hv⟩ := hok p hp as hl
+      obtain ⟨out, hsel, hmg, _⟩ := C08_geo_matcher_contract _ tb fb p.2.events as p.2.pairs hin hv
+      rw [SE.Proofs.C07.C07_total _ _ _ _ hv] at hsel
+      cases hsel
+      simp only [hmg]
+  constructor
+  · unfold soundEventDetectionGeo
+    rw [Detection.mapM_total_mem _ _ preds hwm]
+    rfl
+  · intro x hx
+    change x ∈ Metrics.pairClips _ _ at hx
+    unfold Metrics.pairClips at hx
+    rw [List.mem_filterMap] at hx
+    obtain ⟨p', hp', hx⟩ := hx
+    obtain ⟨p, hp, rfl⟩ := List.mem_map.mp hp'
+    rw [lookupLast_map evAnns] at hx
+    simp only [geoPredClip] at hx
+    cases hl : lookupLast p.1 anns with
+    | none => simp [hl] at hx
+    | some as =>
+      simp only [hl, Option.map_some, Option.some.injEq] at hx
+      subst hx
+      obtain ⟨hin, hv⟩ := hok p hp as hl
+      obtain ⟨out, hsel, _, hc⟩ := C08_geo_matcher_contract _ tb fb p.2.events as p.2.pairs hin hv
+      rw [SE.Proofs.C07.C07_total _ _ _ _ hv] at hsel
+      cases hsel
+      unfold clipCovered
+      simp only [geoMatcher, hl]
+      exact hc
+
+/-! non-vacuity of the geometry layer -/
+
+-- the hypotheses of `C08_geo_pairs_overlap` are satisfiable: a clip with a geometry-less prediction, two boxes and
+-- a time stamp, the solver pairing filtered source 0 with target 0
+example : GeoInputs (fun _ _ => 0) (1/100) 100
+    [(⟨0, true, []⟩, none), (⟨1, true, []⟩, some (.boundingBox 1 1000 2 2000)), (⟨2, true, []⟩, some (.timeStamp 0))]
+    [(⟨3, true, []⟩, some (.boundingBox (3/2) 1000 (5/2) 2000))] := by
+  refine ⟨by decide +kernel, by decide +kernel, fun _ _ => ⟨le_refl _, by decide +kernel⟩, ?_, ?_⟩
+  · intro g hg
+    simp only [geomsOf, List.filterMap_cons, List.filterMap_nil, List.mem_cons, List.not_mem_nil, or_false] at hg
+    rcases hg with rfl | rfl
+    · exact ⟨by decide +kernel, by decide +kernel⟩
+    · exact (by decide +kernel : (0 : Rat) ≤ 0)
+  · intro g hg
+    simp only [geomsOf, List.filterMap_cons, List.filterMap_nil, List.mem_cons, List.not_mem_nil, or_false] at hg
+    subst hg
+    exact ⟨by decide +kernel, by decide +kernel⟩
+example : SE.Proofs.C07.ValidAssignment 2 1 [(0, 0)] := (SE.Proofs.C07.C07_contract_decidable 2 1 [(0, 0)]).mp (by decide)
+-- the replay of the seeded change C08-1: two boxes disjoint in time *and* in frequency do not overlap,
+-- their affinity is 0, a pair between them fails the judge
+example : overlapCF (1/100) (.boundingBox 1 5000 2 7000) (.boundingBox 3 1000 4 3000) = some false := by decide +kernel
+example : affinityCF (1/100) 100 (.boundingBox 1 5000 2 7000) (.boundingBox 3 1000 4 3000) = .ok 0 := by decide +kernel
+example : judgePairs (1/100) [some (.boundingBox 3 1000 4 3000)] [some (.boundingBox 1 5000 2 7000)] [(some 0, some 0)]
+    = false := by decide +kernel
+-- half-overlapping boxes: IoU 1/3; a box and an interval are compared in time only; a time stamp is widened
+example : overlapCF (1/100) (.boundingBox 1 1000 2 2000) (.boundingBox (3/2) 1000 (5/2) 2000) = some true ∧
+    affinityCF (1/100) 100 (.boundingBox 1 1000 2 2000) (.boundingBox (3/2) 1000 (5/2) 2000) = .ok (1/3) := by
+  decide +kernel
+example : overlapCF (1/100) (.boundingBox 1 1000 2 2000) (.timeInterval (3/2) 3) = some true ∧
+    overlapCF (1/100) (.boundingBox 1 1000 2 2000) (.timeInterval 2 3) = some false ∧
+    overlapCF (1/100) (.timeStamp 2) (.timeInterval 2 3) = some true ∧
+    overlapCF (1/100) (.timeStamp 1) (.timeStamp 2) = some false ∧
+    overlapCF (1/100) (.point 1 1000) (.timeStamp 1) = none := by decide +kernel
+-- a clip evaluated with the matcher inside: prediction 0 has no geometry, prediction 1 overlaps annotation 0
+-- (the solver pairs filtered source 0 with target 0), prediction 2 is diagonal to everything
+example :
+    (evalClipGeo 2 (fun _ _ => 0) (1/100) 100
+      [(⟨0, true, [(some 0, 1/2)]⟩, none), (⟨1, true, [(some 1, 3/4)]⟩, some (.boundingBox 1 1000 2 2000)),
+       (⟨2, true, [(some 1, 1/4)]⟩, some (.boundingBox 3 3000 4 4000))]
+      [(⟨3, true, [some 1]⟩, some (.boundingBox (3/2) 1000 (5/2) 2000))]
+      [(0, 0)]).map (fun es => es.map (fun e => (e.src, e.tgt, e.aff, e.score)))
+    = some [(some 1, some 0, 1/3, 3/4), (some 2, none, 0, 0), (some 0, none, 0, 0)] := by decide +kernel
+-- the solver pairing the diagonal boxes (as it does: it pairs as many as it can) is dropped by `_select_matches`
+example :
+    (evalClipGeo 2 (fun _ _ => 0) (1/100) 100
+      [(⟨2, true, [(some 1, 1/4)]⟩, some (.boundingBox 3 3000 4 4000))]
+      [(⟨3, true, [some 1]⟩, some (.boundingBox (3/2) 1000 (5/2) 2000))]
+      [(0, 0)]).map (fun es => es.map (fun e => (e.src, e.tgt, e.aff, e.score)))
+    = some [(some 0, none, 0, 0), (none, some 0, 0, 0)] := by decide +kernel
+
+end Geo
 
 end SE.Proofs.C08
